@@ -232,12 +232,12 @@ namespace awkward {
   const IdentitiesPtr
   IdentitiesOf<T>::deep_copy() const {
     std::shared_ptr<T> ptr = kernel::malloc<T>(kernel::lib::cpu,   // DERIVE
-                                               length_*(int64_t)sizeof(T));
+                                               width_*length_*(int64_t)sizeof(T));
     if (length_ != 0) {
       // DERIVE Yikes! It's a memcpy!
       memcpy(ptr.get(),
              &ptr_.get()[(size_t)offset_],
-             sizeof(T)*((size_t)length_));
+             sizeof(T)*((size_t)width_)*((size_t)length_));
     }
     return std::make_shared<IdentitiesOf<T>>(ref_,
                                              fieldloc_,
